@@ -258,7 +258,7 @@ def check_wait(res):
     try:
         p = pm.RPSPolicer(4.0)  # 250 ms
         expect = []
-        for dt in (0, 0, 10_000_000, 300_000_000, 1, 250_000_000, 249_999_999):
+        for dt in (0, 0, 10_000_000, 300_000_000, 1, 250_000_000, 249_999_999, 249_999_000, 249_000_001, 248_999_999, 500_000_001, 0, 249_999_999):
             clock["t"] += dt
             q = copy.deepcopy(p)
             d = q.get_timeout(clock["t"])
@@ -275,7 +275,7 @@ def check_wait(res):
         p = pm.RPSPolicer(4.0)
         loop = asyncio.new_event_loop()
         try:
-            for dt in (0, 0, 5, 260_000_000, 0):
+            for dt in (0, 0, 5, 260_000_000, 0, 249_999_999, 249_999_000, 248_000_000):
                 clock["t"] += dt
                 q = copy.deepcopy(p)
                 d = q.get_timeout(clock["t"])
